@@ -16,8 +16,10 @@ RULE = ('scripted models (1-4 variables, 1-5 periods) run as a sequence of 1-4 c
         'invalid, warnings with and without catch_first_error, exceptions in _evaluate / pre-hook / post-hook, pre-existing NaN, offsets in '
         'and out of the span, infeasible periods (lags/leads), hooks that write), then random call sequences incl. repeated solves of one '
         'period (same names, other names of the same width, another width = finding #16, reset=True, tracing switched off in between), '
-        'TRACE_VARIABLES None / subset / empty, unknown names, t outside the span. Non-trivial = some call ran >= 2 evaluation passes or '
-        'ended in an exception; distinct by hash of the whole case.')
+        'TRACE_VARIABLES None / subset / empty, unknown names, t outside the span; finally parser-built (C01-grammar) models — 8 scripts with '
+        'lags, leads, parameters, 1/X, log, exp (contractive, divergent, faulting) — whose generated _evaluate is the inner oracle: the '
+        'columns it leaves after every pass (recorded on the untraced twin) become the action script of the Coq model for that run. '
+        'Non-trivial = some call ran >= 2 evaluation passes or ended in an exception; distinct by hash of the whole case.')
 TRUSTED = ['scripted-model subclasses harness/scripted.py + harness/scripted_tracer.py (the same scripts are the Coq oracles; the Recorder layer '
            'between the mixin and the scripted hooks gives the oracle its own record of the store after every pass)']
 ASSUMPTIONS = ['the user\'s _evaluate / solve_t_before / solve_t_after modify variable values only: they do not add, remove or resize series, '
@@ -112,6 +114,8 @@ def _snapshot(m, nvars):
 
 def impl(case):
     import scripted_tracer as st
+    if case.get('kind') == 'parsed':
+        return impl_parsed(case)
     cls = st.make_classes(case['nvars'], case['check'], case['endo'], case.get('lags', 0), case.get('leads', 0), case.get('trace_variables'))
     n = case['n']
     span = list(range(2000, 2000 + n))
@@ -139,6 +143,87 @@ def impl(case):
         s['twin'] = tw
         steps.append(s)
     return {'steps': steps}
+
+
+# --------------------------------------------------------------------------- parser-built (C01-grammar) models
+# (script, NAMES as fsic orders them) — the inner _evaluate is the code fsic generates; one call per case, so that every
+# period is solved at most once and the recorded columns determine the action script handed to the Coq model
+PARSED = [
+    ('Y = C + G\nC = 0.6 * Y', ['Y', 'C', 'G']),
+    ('C = {alpha} * Y[-1]\nY = C + G', ['C', 'Y', 'G', 'alpha']),
+    ('Y = 1 / X', ['Y', 'X']),
+    ('Y = log(X) + Z', ['Y', 'X', 'Z']),
+    ('Y = 2 * Y + 1', ['Y']),
+    ('Y = 0.5 * Y + X[1]', ['Y', 'X']),
+    ('C = 0.6 * Y\nI = 0.2 * Y[-1]\nY = C + I + G', ['C', 'I', 'Y', 'G']),
+    ('Y = exp(X) * Y', ['Y', 'X']),
+]
+
+
+def impl_parsed(case):
+    import scripted
+    import scripted_tracer as st
+    script, want = PARSED[case['model']]
+    cls, names = st.make_parsed_class(script, case.get('trace_variables'))
+    if names != want:
+        raise AssertionError('NAMES of %r are %s, the case generator assumed %s' % (script, names, want))
+    n = case['n']
+    span = list(range(2000, 2000 + n))
+    m = st.instantiate_parsed(cls, names, span, case['vals'])
+    u = st.instantiate_parsed(cls, names, span, case['vals'])
+    nv = len(names)
+
+    def snap(x):
+        return {'vals': [[lib.fhex(v) for v in x.__dict__['_' + nm]] for nm in names],
+                'status': [str(v) for v in x.__dict__['_status']], 'iters': [int(v) for v in x.__dict__['_iterations']],
+                'log': [list(e) for e in x.__dict__['_evlog']]}
+    call = case['calls'][0]
+    kw = _opts_kw(call['opts'])
+    tkw = dict(kw)
+    a = call.get('trace', ['omit'])
+    if a[0] != 'omit':
+        t_ = py_trace(a)
+        ren = lambda s_: names[int(s_[1:])] if int(s_[1:]) < nv else 'NoSuchVariable' + s_[1:]     # noqa: E731
+        tkw['trace'] = ren(t_) if isinstance(t_, str) and t_ else (type(t_)(ren(x) for x in t_) if isinstance(t_, (list, tuple)) else t_)
+    if call.get('reset') is not None:
+        tkw['reset'] = bool(call['reset'])
+    out_m = _run(m, call, tkw)
+    out_u = _run(u, call, kw)
+    s = snap(m)
+    s['out'] = out_m
+    s['traces'] = st.observe_traces_named(m, names, lib.fhex)
+    s['columns'] = [[c[0], c[1], c[2], [lib.fhex(x) for x in c[3]]] + list(c[4:]) for c in m.__dict__['_columns']]
+    tw = snap(u)
+    tw['out'] = out_u
+    tw['traces_untouched'] = all(len(t.index) == 0 and t.values.shape == (0,) for t in u.__dict__['_trace'])
+    s['twin'] = tw
+    # the action script of this run: after pass k of period p the column is ..., and the pass raised / returned
+    scripts = {}
+    for c in u.__dict__['_columns']:                 # from the UNTRACED twin: the model's inner oracle knows nothing of tracing
+        kind, t, k, col = c[0], c[1], c[2], c[3]
+        p = str(t if t >= 0 else t + n)
+        if kind in ('pass', 'pass-raise'):
+            acts = [['set', i, lib.fhex(col[i])] for i in range(nv)]
+            if kind == 'pass-raise':
+                acts.append(['raise', scripted.CAUSE_TAG.get(c[4], 99)])
+            ps = scripts.setdefault(p, {'passes': []})['passes']
+            if len(ps) != k - 1:
+                raise AssertionError('period %s visited twice or passes out of order' % p)
+            ps.append(acts)
+    derived = {'nvars': nv, 'check': [names.index(x) for x in m.check], 'endo': [names.index(x) for x in m.endogenous],
+               'lags': int(m.lags), 'leads': int(m.leads), 'scripts': scripts}
+    return {'steps': [s], 'derived': derived}
+
+
+def _full(case, obs):
+    """A parser-built case completed with what only the generated class knows (variable classification, lags, leads, script)."""
+    if case.get('kind') != 'parsed':
+        return case
+    c = dict(case)
+    c.update(obs['derived'])
+    c['status'] = ['-'] * case['n']
+    c['iters'] = [-1] * case['n']
+    return c
 
 
 # --------------------------------------------------------------------------- Coq encoding
@@ -208,11 +293,12 @@ def c_case17(case, obs):
 
 
 def correspond(cases, obs, tag, tier):
-    items = [c_case17(c, o) for c, o in zip(cases, obs)]
+    items = [c_case17(_full(c, o), o) for c, o in zip(cases, obs)]
     return lib.run_coq_cases(tag, PREAMBLE, items, 'bad_indices check_tcase17 0%nat cs', shard=250)
 
 
 def explain(case, obs):
+    case = _full(case, obs)
     span = lib.clist(lib.cZ(2000 + i) for i in range(case['n']))
     tv = case.get('trace_variables')
     cfg = '(mkTCfg %s)' % ('None' if tv is None else '(Some %s)' % lib.clist(lib.cnat(i) for i in tv))
@@ -266,6 +352,7 @@ def oracle(case, obs):
 
     def bad(sig, what):
         fails.append({'sig': sig, 'what': what})
+    case = _full(case, obs)
     n, nv = case['n'], case['nvars']
     prev = {'vals': case['vals'], 'status': case['status'], 'iters': case['iters'], 'traces': [copy.deepcopy(EMPTY) for _ in range(n)]}
     for ci, (call, s) in enumerate(zip(case['calls'], obs['steps'])):
@@ -286,20 +373,31 @@ def oracle(case, obs):
         in_domain = (not on) or (all(0 <= i < nv for i in names) and periods is not None)
         same = all(s[k] == tw[k] for k in ('out', 'vals', 'status', 'iters', 'log'))
         if not in_domain:
-            # a user error: the traced call must fail cleanly, before the base class runs (nothing but Trace.index may move)
-            if s['out'][0] != 'raise' or s['out'][1] not in ('KeyError', 'IndexError') or any(s[k] != prev[k] for k in ('vals', 'status', 'iters')):
+            # a user error (unknown name / period outside the span).  Either no trace_t call was reached (solve() rejected its
+            # own arguments or had no period to solve) and the call is the plain call, or the traced call fails cleanly: the
+            # period's first trace_t raises KeyError / IndexError before the base class touches that period.
+            if same and s['traces'] == prev['traces']:
+                prev = {'vals': s['vals'], 'status': s['status'], 'iters': s['iters'], 'traces': s['traces']}
+                continue
+            clean = (s['out'][0] == 'raise' and s['out'][1] in ('KeyError', 'IndexError')
+                     and all(s[k] == prev[k] for k in ('vals', 'status', 'iters')))
+            if not clean:
                 bad('C17|%s|unknown-name-or-period-not-rejected-cleanly' % ent, 'call %d: expected KeyError/IndexError with no change, got %s' % (ci, s['out']))
             break
+        # finding #16: an addressed period was traced before with another number of names (and reset is off).  The traced
+        # call then dies in Trace.append (ValueError, label already appended) — reported under its own signature whether
+        # or not the twin happens to raise a ValueError of its own (min_iter > max_iter).
+        wide = [p for p in (periods or []) if on and not reset and prev['traces'][p]['values']
+                and len(prev['traces'][p]['values'][0]) != len(names)]
+        if wide and s['out'][:2] == ['raise', 'ValueError'] and (not same or s['traces'] != prev['traces']):
+            p0 = wide[0]
+            bad(KNOWN_SIG, 'call %d: %s(..., trace=%r) raises ValueError (np.hstack in Trace.append) because period %d was traced before with '
+                '%d name(s); the same call without trace= gives %s' % (ci, ent, py_trace(a), p0, len(prev['traces'][p0]['values'][0]), tw['out']))
+            break
         if not same:
-            mismatch = (on and not reset and s['out'][:2] == ['raise', 'ValueError'] and periods is not None and
-                        any(prev['traces'][p]['values'] and len(prev['traces'][p]['values'][0]) != len(names) for p in periods))
-            if mismatch:
-                bad(KNOWN_SIG, 'call %d: %s(..., trace=%r) raises ValueError (np.hstack in Trace.append) because the period was traced before with '
-                    '%d name(s); the same call without trace= gives %s' % (ci, ent, py_trace(a), len(prev['traces'][[p for p in periods if prev['traces'][p]['values']][0]]['values'][0]), tw['out']))
-            else:
-                diff = [k for k in ('out', 'vals', 'status', 'iters', 'log') if s[k] != tw[k]]
-                bad('C17|%s|traced-differs-from-untraced' % ent, 'call %d (trace=%r, reset=%r): traced and untraced runs differ in %s: traced out=%s, untraced out=%s'
-                    % (ci, a, call.get('reset'), diff, s['out'], tw['out']))
+            diff = [k for k in ('out', 'vals', 'status', 'iters', 'log') if s[k] != tw[k]]
+            bad('C17|%s|traced-differs-from-untraced' % ent, 'call %d (trace=%r, reset=%r): traced and untraced runs differ in %s: traced out=%s, untraced out=%s'
+                % (ci, a, call.get('reset'), diff, s['out'], tw['out']))
             break           # later calls start from different states
         # ---- tracing on: what the Trace of each addressed period holds
         if on:
@@ -357,7 +455,14 @@ def _check_shapes(case, call, ci, s, prev, names, periods, bad):
             bad('C17|%s|index-values-length' % ent, 'call %d period %d: %d labels but %d snapshots' % (ci, p, len(new_idx), len(new_val)))
             continue
         k = s['iters'][p]
-        stored = [s['vals'][i][p] for i in names]
+        # the stored solution of the period: what the store holds when the call returns; inside a multi-period solve()
+        # a LATER period's hook may legitimately write into this period, so there it is the column as the period's own
+        # last hook left it (Recorder)
+        if ent == 'solve':
+            rec = cols.get(p, {}).get(('after', k) if how == 'solved' else (('pass', k) if k >= 1 else ('before', 0)))
+            stored = [rec[i] for i in names] if rec is not None else None
+        else:
+            stored = [s['vals'][i][p] for i in names]
         if how in ('solved', 'unsolved'):
             exp = _expected_labels(k, how == 'solved')
             if new_idx != exp:
@@ -409,7 +514,7 @@ def shrink_candidates(case):
             c = copy.deepcopy(case)
             del c['calls'][i]
             yield c
-    for key, sc_ in list(case['scripts'].items()):
+    for key, sc_ in list(case.get('scripts', {}).items()):
         passes = sc_.get('passes', [])
         for i in range(len(passes)):
             c = copy.deepcopy(case)
@@ -564,10 +669,61 @@ def gen(rng, tier):
                         c['calls'] = [_call(entry, p, 4, o, a, reset, neg)]
                     cases.append(c)
     # ---- random call sequences
-    n_rand = 900 if tier == 'quick' else 30000
+    n_rand = 4500 if tier == 'quick' else 45000
     for _ in range(n_rand):
         cases.append(_random_case(rng, scen))
+    # ---- parser-built models: the inner _evaluate is fsic's generated code
+    for _ in range(800 if tier == 'quick' else 8000):
+        cases.append(_parsed_case(rng))
     return cases
+
+
+def _parsed_case(rng):
+    mi = rng.randrange(len(PARSED))
+    names = PARSED[mi][1]
+    nv = len(names)
+    n = rng.randint(3, 5)
+    vals = []
+    for nm in names:
+        if nm == 'alpha':
+            row = [rng.choice([0.6, 0.6, 1.5])] * n
+        elif nm == 'G':
+            row = [10.0] * n
+        elif nm in ('X', 'Z'):
+            base = rng.choice([2.0, 0.5, 0.0, -1.0, 1.0])
+            row = [base if rng.random() < 0.7 else rng.choice([0.0, 2.0, -1.0, 700.0]) for _ in range(n)]
+        else:
+            row = [rng.choice([0.0, 0.0, 1.0, 25.0]) for _ in range(n)]
+            if rng.random() < 0.05:
+                row[rng.randrange(n)] = NAN
+        vals.append([H(x) for x in row])
+    tv = None
+    if rng.random() < 0.2:
+        tv = rng.sample(range(nv), rng.randint(0, nv))
+    c = {'kind': 'parsed', 'model': mi, 'n': n, 'vals': vals, 'trace_variables': tv, 'calls': []}
+    mx = rng.choice([0, 1, 3, 8, 40, 100])
+    o = _opts(min_iter=rng.choice([0, 0, 2, mx, mx + 1]), max_iter=mx, tol=H(rng.choice([1e-10, 1e-3, 0.5])),
+              failures=rng.choice(['raise', 'ignore']), errors=rng.choice(['raise', 'raise', 'skip', 'ignore', 'replace']),
+              catch_first_error=rng.random() < 0.6, offset=rng.choice([0, 0, 0, -1, 1]))
+    q = rng.random()
+    if q < 0.1:
+        a = rng.choice([['omit'], ['none'], ['flag', False]])
+    elif q < 0.5:
+        a = ['flag', True]
+    elif q < 0.7:
+        a = ['name', rng.randrange(nv)]
+    else:
+        a = [rng.choice(['list', 'tuple']), [rng.randrange(nv) for _ in range(rng.randint(1, 3))]]
+    reset = rng.choice([None, None, False, True])
+    entry = rng.choice(['solve', 'solve', 'solve_t', 'solve_period'])
+    p = rng.randrange(n)
+    if entry == 'solve':
+        st = rng.randrange(n) if rng.random() < 0.4 else None
+        en = rng.randrange(n) if rng.random() < 0.4 else None
+        c['calls'] = [_call('solve', p, n, o, a, reset, start=st, end=en)]
+    else:
+        c['calls'] = [_call(entry, p, n, o, a, reset, neg=rng.random() < 0.3)]
+    return c
 
 
 def _rand_passes(rng, nv, check, palette):
@@ -641,7 +797,9 @@ def _random_case(rng, scen):
     ncalls = rng.choice([1, 2, 2, 3, 4])
     focus = rng.randrange(n)
     calls = []
-    width_names = None
+    consistent = rng.random() < 0.8
+    default_w = nv if tv is None else len(tv)
+    width = rng.choice([1, 1, 2, default_w, default_w])
     for ci in range(ncalls):
         mx = rng.randint(0, 5) if rng.random() < 0.92 else rng.randint(-1, 0)
         mn = rng.randint(0, mx + 1) if mx >= 0 else rng.randint(-2, 1)
@@ -649,21 +807,29 @@ def _random_case(rng, scen):
                   errors=rng.choice(['raise'] * 3 + ['skip', 'ignore', 'replace', 'bogus']), catch_first_error=rng.random() < 0.6)
         if rng.random() < 0.2:
             o['tol'] = H(rng.choice([1e-10, 0.5, 0.0, 1.0]))
-        if rng.random() < 0.2:
-            o['offset'] = rng.choice([-1, 1, -2, 2, n, -n])
+        if rng.random() < 0.15:
+            o['offset'] = rng.choice([-1, 1, -1, 1, -2, 2, n, -n])
         p = focus if rng.random() < 0.75 else rng.randrange(n)
         q = rng.random()
         if q < 0.15:
             a = rng.choice([['omit'], ['none'], ['flag', False], ['list', []], ['empty_str']])
-        elif q < 0.4:
-            a = ['flag', True]
-        elif q < 0.6:
-            a = ['name', rng.randrange(nv)]
+        elif not consistent:
+            if q < 0.4:
+                a = ['flag', True]
+            elif q < 0.6:
+                a = ['name', rng.randrange(nv)]
+            else:
+                a = [rng.choice(['list', 'list', 'tuple']), [rng.randrange(nv) for _ in range(rng.randint(1, 3))]]
         else:
-            a = [rng.choice(['list', 'list', 'tuple']), [rng.randrange(nv) for _ in range(rng.randint(1, 3))]]
-        if width_names is not None and rng.random() < 0.6:
-            # keep the width of the earlier traced call most of the time (so repeated solves accumulate rather than fail)
-            a = ['list', [rng.randrange(nv) for _ in range(width_names)]] if width_names > 0 else a
+            # one width for every traced call of the case: repeated solves accumulate instead of hitting finding #16
+            if width == default_w and rng.random() < 0.6:
+                a = ['flag', True]
+            elif width == 1 and rng.random() < 0.6:
+                a = ['name', rng.randrange(nv)]
+            elif width >= 1:
+                a = [rng.choice(['list', 'list', 'tuple']), [rng.randrange(nv) for _ in range(width)]]
+            else:
+                a = ['flag', True]
         reset = rng.choice([None, None, False, True])
         entry = rng.choice(['solve_t', 'solve_t', 'solve_period', 'solve'])
         if entry == 'solve':
@@ -676,8 +842,6 @@ def _random_case(rng, scen):
             calls.append(_call('solve', p, n, o, a, reset, start=st, end=en))
         else:
             calls.append(_call(entry, p, n, o, a, reset, neg=rng.random() < 0.3))
-        if truthy(a) and width_names is None:
-            width_names = len(names_of(c, a))
     # out-of-domain endings (always the last call): unknown name, t outside the span, unknown label
     r = rng.random()
     if r < 0.06:
